@@ -119,3 +119,7 @@ def run(P, R, tier):
     R.floor("DTYPE.raw sites (gmm e_step)", n_dt, 2)
     from ..engines import proto as _pp
     _pp.check_pairwise_folds(P, R, ['gmm', 'utils'])
+    from ..engines import own as _oe
+    from . import C19 as _c19
+    _c19.check_operator_alias(P, R, _oe.Own(P))
+
